@@ -46,6 +46,14 @@ CHECKS = {
    text='Aliases.tla models Python attribute resolution (C3 linearisation computed in the spec, own dictionaries, deprecation wrappers with captured or dynamic dispatch, keyword renaming) over constants extracted from the imported package (162 classes, 120 wrappers, 33 driver-made redefining subclasses); TLC checks for every receiver and every deprecated name visible on it that the alias reaches the function the advertised new name reaches, and the name-correspondence rule; every emitted (receiver, alias) pair is replayed with spies on the real classes, linearisations are compared with __mro__, keyword cases run through the real wrappers, and several hundred aliases are called with real arguments comparing results, receiver state, files and warnings.',
    note='trusted: TLC, Python introspection of the package; class-qualified calls (Base.old(obj)) are outside the model; 483-608 pairs are checked by spies only',
    technique='TLA+ spec Aliases over extracted constants + TLC, spec->code replay with spies and real-argument calls', ref='5 C20'),
+ 'C13': dict(
+   text='Database.tla models the table as a sequence of labelled rows with columns, excluded count, panel column and individual map, one action per public operation (remove, add column / define variable, scale, panel, build map, split, sample, sample individuals, extract, flatten, count); TLC checks the row/value/fold/sample invariants over all operation histories on small tables with gap, permuted and duplicate index labels; every TLC-generated history is replayed on a real Database comparing values and labels after each step, and the recorded events (including the random outcomes of split and sampling) are judged by DatabaseTrace.tla as one of the outcomes the spec allows; long random histories come from TLC -simulate.',
+   note='trusted: TLC; integer cells only; fold-size balance and the order of flat-table lines are not judged',
+   technique='TLA+ spec Database + TLC histories, spec->code replay and code->spec trace validation (DatabaseTrace)', ref='5 C13'),
+ 'C15': dict(
+   text='IterFile.tla models evaluations, the saver as open/write/close/rename steps on the iteration file and its temporary file, a Crash enabled in every state and Restart; TLC checks FileComplete, FileBest, RestartSucceeds, NeverBelowStart, UpToDate over all evaluation sequences (improving, worsening, ties, non-finite) and crash points, and reports the three other saver variants (in place / best frozen) as violating; the real calculate_likelihood_and_derivatives runs under strace and the system calls on the files, interleaved with the evaluations, are validated step by step by IterFileTrace.tla; the run is repeated with the process killed at the entry of every relevant system call (strace fault injection), the surviving files are observed and a real restart in a fresh process must succeed and start from the saved values, all judged by the trace specification.',
+   note='trusted: TLC, strace fault injection (a killed run that does not follow the dry run is skipped and counted); process crash, not power loss; for the 340-parameter model the restart stops once the optimiser has received its starting point',
+   technique='TLA+ spec IterFile + TLC crash-point exploration, code->spec trace validation of strace logs with kill injection (IterFileTrace)', ref='5 C15'),
 }
 
 def cmd(pid, tier):
